@@ -8,9 +8,31 @@ from harness.common import Duration, mk_dur, outcome, proj_dur, set_mode
 PROP = "C11"
 
 
+def run_big(case, rec, cid):
+    """All-integer unit-form durations far beyond 2**53 seconds, `delta` seconds apart (possibly spelt with other units)."""
+    B, k, delta = int(case["B"]), case["k"], case["delta"]
+    h, mi, s = case["hms"]
+
+    def f():
+        a = Duration(days=B, hours=h, minutes=mi, seconds=s)
+        kd, kh, km = k
+        b = Duration(days=B - kd, hours=h + 24 * kd - kh, minutes=mi + 60 * kh - km, seconds=s + 60 * km + delta)
+        diff = (b - a).get_seconds()
+        return dict(cmp=[bool(a == b), bool(a != b), bool(a < b), bool(a <= b), bool(a > b), bool(a >= b)], hs=hash(a) == hash(b),
+                    diff=int(diff) if diff == int(diff) and abs(diff) < 10 ** 6 else 999999)
+    st, v = outcome(f)
+    if st == "ok":
+        rec.ev("DurBig", cid, delta=delta, ok=True, cls="", **v)
+    else:
+        rec.ev("DurBig", cid, delta=delta, ok=False, cls=type(v).__name__, cmp=[False] * 6, hs=False, diff=0)
+    return True
+
+
 def run_case(case, rec, cid):
     set_mode(case["mode"])
     rec.begin(cid)
+    if case.get("kind") == "big":
+        return run_big(case, rec, cid)
     a, b, c, n = mk_dur(case["a"]), mk_dur(case["b"]), mk_dur(case["c"]), case["n"]
     pa, pb, pc = proj_dur(a), proj_dur(b), proj_dur(c)
     ids = {}
@@ -74,6 +96,16 @@ def run_case(case, rec, cid):
         rec.ev("DurLaws", cid, a=pa, b=pb, c=pc, n=n, ok=True, cls="", **v)
     else:
         rec.ev("Raised", cid, what="duration arithmetic", cls=type(v).__name__, ve=isinstance(v, ValueError))
+    if not pa["frac"] and not a.get_is_in_weeks():
+        # the constructor's standardize option re-spells the exact part (seconds -> minutes -> hours -> days carry)
+        def h():
+            s_ = Duration(years=a.years, months=a.months, days=a.days, hours=a.hours, minutes=a.minutes, seconds=a.seconds, standardize=True)
+            return dict(s=proj_dur(s_), eq=bool(s_ == a and a == s_), hs=hash(s_) == hash(a), lt=bool(s_ < a), gt=bool(s_ > a))
+        st, v = outcome(h)
+        if st == "ok":
+            rec.ev("DurStd", cid, a=pa, ok=True, cls="", **v)
+        else:
+            rec.ev("DurStd", cid, a=pa, ok=False, cls=type(v).__name__, s=pa, eq=False, hs=False, lt=False, gt=False)
     if not pa["frac"]:
         # beyond C11: //, abs, to_weeks, bool on the stored form (extended specification, ImplDur.tla)
         k = n if n else 2
@@ -146,6 +178,13 @@ def expand(job):
         a = rand_dur(rnd, frac)
         x = rnd.random()
         y = rnd.random()
+        if y > 0.97:
+            yield {"mode": gen.spelling(rnd), "kind": "big",
+                   "B": str(rnd.choice([10 ** 11 + 5, 10 ** 12, 2 ** 40 + 1, 10 ** 13 + 7, 3 * 10 ** 14 + 1, 2 ** 62]) * rnd.choice([1, -1])),
+                   "hms": [rnd.randint(-30, 30), rnd.randint(-70, 70), rnd.randint(-100000, 100000)],
+                   "k": [rnd.choice([0, 0, 1, 5]), rnd.choice([0, 0, 2]), rnd.choice([0, 0, 3])],
+                   "delta": rnd.choice([-2, -1, 0, 0, 1, 1, 2, 60, -3600])}
+            continue
         if y < 0.04:
             # very long durations one second (or one day) apart: equality and order must not be judged to a relative tolerance
             a = {"d": rnd.choice([1, -1]) * rnd.randint(10 ** 7, 4 * 10 ** 8)}
